@@ -86,6 +86,8 @@ def main():
     ap.add_argument('--keep', action='store_true')
     ap.add_argument('--only', default='', help='regex on file names to restrict the renaming to')
     ap.add_argument('--all', action='store_true', help='every function with a body in the .cpp files of the library, not only the functions the rules name')
+    ap.add_argument('--mode', default='rename', choices=('rename', 'cond'),
+                    help="rename: locals and parameters get a suffix; cond: equivalent spellings of conditions ('x == true' -> 'x', '0 == p' -> 'p == 0', '0 != p' -> 'p != 0') in every .cpp file of the library")
     a = ap.parse_args()
     facts = Facts('lib', None)
     db = compile_db()
@@ -119,6 +121,26 @@ def main():
     nfun = nfiles = 0
     skipped = []
     written = []
+    if a.mode == 'cond':
+        byfile = {}
+        import glob as _glob
+        for f in sorted(_glob.glob('/repo/src/xalanc/**/*.cpp', recursive=True)):
+            if f not in db or (a.only and not re.search(a.only, f)):
+                continue
+            text = open(f, encoding='utf-8', errors='surrogateescape').read()
+            new = re.sub(r'\s*==\s*true\b', '', text)
+            new = re.sub(r'\btrue\s*==\s*', '', new)
+            # 'operand == false' -> '!operand' for simple operands (names, member paths, one call) that start right after '(', '&& ', '|| ' or 'return '
+            new = re.sub(r'(?<=[(])((?:[A-Za-z_]\w*(?:::|\.|->))*[A-Za-z_]\w*(?:\([^()]*\))?) == false\b', r'!\1', new)
+            new = re.sub(r'((?:&&|\|\||return) )((?:[A-Za-z_]\w*(?:::|\.|->))*[A-Za-z_]\w*(?:\([^()]*\))?) == false\b', r'\1!\2', new)
+            new = re.sub(r'\b0 == ((?:[A-Za-z_]\w*)(?:(?:\.|->)[A-Za-z_]\w*)*)(?=\s*[)&|;])', r'\1 == 0', new)
+            new = re.sub(r'\b0 != ((?:[A-Za-z_]\w*)(?:(?:\.|->)[A-Za-z_]\w*)*)(?=\s*[)&|;])', r'\1 != 0', new)
+            if new != text:
+                rel = os.path.relpath(f, '/repo')
+                dst = os.path.join(od, rel)
+                os.makedirs(os.path.dirname(dst), exist_ok=True)
+                open(dst, 'w', encoding='utf-8', errors='surrogateescape').write(new)
+                written.append((f, dst, rel, len(re.findall(r'==\s*true\b|\btrue\s*==|\b0 [!=]= [A-Za-z_]|== false\b', text))))
     for f, funs in sorted(byfile.items()):
         text = open(f, encoding='utf-8', errors='surrogateescape').read()
         orig = text
@@ -168,7 +190,7 @@ def main():
             else:
                 os.remove(dst)
                 skipped.append((rel, 'renamed file does not parse: ' + err))
-    print('renamed the locals of %d functions in %d files; %d skipped' % (nfun, nfiles, len(skipped)))
+    print(('renamed the locals of %d functions in %d files; %d skipped' if a.mode == 'rename' else 'respelled %d conditions in %d files; %d skipped') % (nfun, nfiles, len(skipped)))
     for s in skipped[:40]:
         print('  skipped', s)
     props = [p for p in a.props.split(',') if p] or json.load(open(os.path.join(V, 'MANIFEST.json'))).get('claimed') or []
